@@ -140,17 +140,92 @@ func fieldID(v *types.Var, recv types.Type) string {
 		return v.Name()
 	}
 	tn := typeName(v.Type())
+	// a field that is only ever written (a statistics counter) is not part of the behaviour: it gets
+	// its own kind of id and does not shift the ordinals of the other fields of its type
+	if writeOnlyFields[v.Origin()] {
+		return "wo:" + v.Name()
+	}
 	k := 0
 	for i := 0; i < st.NumFields(); i++ {
 		f := st.Field(i)
 		if f == v || (f.Name() == v.Name() && f.Pos() == v.Pos()) || (f.Origin() == v.Origin()) {
 			return fmt.Sprintf("%s#%d", tn, k)
 		}
-		if typeName(f.Type()) == tn {
+		if typeName(f.Type()) == tn && !writeOnlyFields[f.Origin()] {
 			k++
 		}
 	}
 	return v.Name()
+}
+
+// writeOnlyFields: struct fields of the module that non-test code assigns or increments but
+// never reads (set by loadWorld).
+var writeOnlyFields = map[*types.Var]bool{}
+
+func computeWriteOnlyFields(w *World) {
+	written := map[*types.Var]bool{}
+	read := map[*types.Var]bool{}
+	for _, p := range w.Pkgs {
+		if p.Types == nil || !strings.HasPrefix(p.PkgPath, modPath) {
+			continue
+		}
+		info := p.TypesInfo
+		for _, f := range p.Syntax {
+			// only genuine counters qualify: integer fields modified by ++/--/+=/-= and nothing else;
+			// any other write (plain assignment, composite literal) counts as a use
+			targets := map[ast.Node]bool{}
+			ast.Inspect(f, func(n ast.Node) bool {
+				switch x := n.(type) {
+				case *ast.AssignStmt:
+					if x.Tok == token.ADD_ASSIGN || x.Tok == token.SUB_ASSIGN {
+						for _, l := range x.Lhs {
+							targets[ast.Unparen(l)] = true
+						}
+					}
+				case *ast.IncDecStmt:
+					targets[ast.Unparen(x.X)] = true
+				}
+				return true
+			})
+			skip := map[ast.Node]bool{}
+			ast.Inspect(f, func(n ast.Node) bool {
+				var obj types.Object
+				switch x := n.(type) {
+				case *ast.SelectorExpr:
+					skip[x.Sel] = true
+					if s := info.Selections[x]; s != nil && s.Kind() == types.FieldVal {
+						obj = s.Obj()
+					}
+				case *ast.Ident:
+					if skip[n] {
+						return true
+					}
+					if o, ok := info.Uses[x].(*types.Var); ok && o.IsField() {
+						obj = o
+					}
+				}
+				fv, ok := obj.(*types.Var)
+				if !ok {
+					return true
+				}
+				if targets[n] {
+					written[fv.Origin()] = true
+				} else if _, isSel := n.(*ast.SelectorExpr); isSel {
+					read[fv.Origin()] = true
+				} else if !targets[n] {
+					// an identifier use of a field outside a selector: a composite-literal key is a target; anything else reads
+					read[fv.Origin()] = true
+				}
+				return true
+			})
+		}
+	}
+	writeOnlyFields = map[*types.Var]bool{}
+	for v := range written {
+		if b, ok := v.Type().Underlying().(*types.Basic); ok && b.Info()&types.IsInteger != 0 && !read[v] {
+			writeOnlyFields[v] = true
+		}
+	}
 }
 
 func structOf(t types.Type) *types.Struct {
